@@ -85,11 +85,16 @@ CHECKS["C02"] = dict(
          "call (structural induction over the stream, then over the pieces). Generic in the parser; the premise parse_needs_opener is PROVED of the "
          "concrete parser (the_concrete_parser_needs_an_opener: lexer invariant over all modes, root = first start tag, registered tag = buffer tag), "
          "giving concrete_framing_lossless_ordered_prompt; the premise Framing.spelling per message spelling (parsed whole, no proper prefix parses, "
-         "opener at 0, single final '>', fits) is decidable and evaluated by the model on every generated spelling (spell_check_sound) - PARTIAL only "
-         "in that spelling is not yet a theorem about every printed message. Correspondence: real "
+         "opener at 0, single final '>', fits) is PROVED of the text to_string writes for every constructible printable message "
+         "(printed_message_is_a_spelling: XML print-then-parse identity, message round trip, no_prefix_of_a_printed_element_parses - after the root "
+         "has closed the lexer accepts blanks only), giving the end-to-end theorems every_stream_of_written_messages_is_read_back and "
+         "written_messages_are_delivered_promptly: any list of constructible messages written by to_string, ANY cut into pieces, the buffer with the "
+         "concrete parser and the live tags delivers exactly those messages in order, each as soon as its last byte arrived; the only hypothesis left "
+         "is that each message fits the threshold (K1). For other spellings (single quotes, extra blanks) the premise is decidable and evaluated per "
+         "instance (spell_check_sound). Correspondence: real "
          "Buffer and the three real receive loops vs the model with the concrete XML+message parser; every 1-cut, every 2-cut of short streams, "
          "per-character, random cuts, three thresholds.",
-    note=NOTE_BASE + "PARTIAL: the per-spelling premise (prefix-freeness of printed documents) is checked per instance, not proved for Xml.Lex; 'accepted text contains a known opener' is proved.",
+    note=NOTE_BASE + "Proved for the canonical spelling to_string writes; other spellings of the same message (which a foreign peer may send) are checked per instance.",
     technique="Coq proof (structural induction over segmented streams; generic parser with decidable premises) + correspondence incl. real receive loops",
     design="4/C02")
 CHECKS["C07"] = dict(
